@@ -8,7 +8,6 @@ import (
 	"iter"
 	"maps"
 	"slices"
-	"strconv"
 )
 
 type RecordMap = map[String]Value
@@ -185,7 +184,9 @@ func (r Record) MarshalCedar() []byte {
 			sb.WriteString(", ")
 		}
 		first = false
-		sb.WriteString(strconv.Quote(string(k)))
+		// keys are Cedar string literals (Rust-style escapes), not Go ones: strconv.Quote
+		// emits \a, \u0085, \U0001f600 .. which the Cedar parser rejects
+		sb.Write(k.MarshalCedar())
 		sb.WriteString(":")
 		sb.Write(v.MarshalCedar())
 	}
